@@ -169,6 +169,11 @@ impl<'a> DagGen<'a> {
         from
     }
 
+    /// Return the model built so far by explicit `child`/`merge`/`chain` calls.
+    pub fn build_as_is(self) -> Model {
+        self.model
+    }
+
     pub fn build(mut self) -> Model {
         let n = self.cfg.n;
         match self.cfg.shape {
